@@ -121,6 +121,28 @@ class C01(Prop):
         for x in xs:
             yield {"draft": case["draft"], "schema": case["schema"], "instances": [x], "probes": 0}
 
+    def extra_stages(self, tier, seed, acc):
+        """Exhaustive type matrix: every type name (and every pair) of every draft, at the root and below items /
+        properties / additionalProperties, against every ordered pair of values from a pool in which each Python
+        class appears with differently-typed members (1.0 / 1.5, 1 / True, 0 / False, -0.0)."""
+        import itertools
+        from ..harness import run_case
+        pool = [None, True, False, 0, 1, 1.0, 1.5, -0.0, 2 ** 53, "", "a", [], [1], {}, {"a": 1}]
+        n = 0
+        for d in impl.DRAFTS:
+            names = list(spec.D3_TYPES if d == 3 else spec.D4_TYPES)
+            tys = names + [[a, b] for a, b in itertools.combinations(names, 2)]
+            for t in tys:
+                arrays = [[a, b] for a in pool for b in pool]
+                objects = [{"a": a, "b": b} for a in pool for b in pool]
+                for schema, xs in (({"items": {"type": t}}, arrays), ({"additionalProperties": {"type": t}}, objects),
+                                   ({"type": t}, pool)):
+                    if d == 3 and "any" in (t if isinstance(t, list) else [t]) and isinstance(t, list):
+                        continue
+                    run_case(self, {"draft": d, "schema": schema, "instances": xs, "probes": 0}, acc, keep_sample=False)
+                    n += len(xs)
+        acc.extra["type_matrix_evaluations"] = n
+
     def gate(self, acc, tier):
         miss = []
         if tier == "thorough":
